@@ -90,3 +90,18 @@ more("C15", "range over a map re-reads each entry and skips deleted ones, every 
 more("C16", "WriteJS forwards esbuild's output verbatim.")
 more("C19", "the text handed to WriteJS and the file name are fields of one file record; the first-line test of the mapping offset uses the line number of the sourcemap decoder (read from the dependency's source).")
 more("C20", "the staleness bound covers .inc.js files.")
+
+# sixth round
+more("C01", "(sixth round) compound assignment parenthesises its right operand; every expression operand reaches a template once; the integer remainder is coerced after its NaN test; slice conversions keep the capacity.")
+more("C02", "(sixth round) nothing is translated after pkgCtx.escapingVars is restored.")
+more("C04", "(sixth round) the concrete selection takes index path and object from one lookup on the instantiated receiver.")
+more("C05", "(sixth round) nested DCE filters inherit the outer type-parameter replacements.")
+more("C06", "(sixth round) remainder yields no negative zero; compound assignment keeps the grouping of its right operand.")
+more("C07", "(sixth round) $convertSliceType derives offset, length and capacity from the operand.")
+more("C09", "(sixth round) pointer-receiver methods promoted from non-struct embedded fields are forwarded through a pointer to the field; dispatch on structural types looks through defined types (EXH.named).")
+more("C11", "(sixth round) $parseFloat returns Number operands unchanged.")
+more("C12", "(sixth round) no source is parsed with SkipObjectResolution while pruneImports reads Ident.Obj.")
+more("C13", "(sixth round) Signbit/Copysign evaluated on the six sign classes of a float64.")
+more("C17", "(sixth round) files are sorted by their physical name.")
+more("C19", "(sixth round) no constant shift in the codecs reaches the width of its operand type; header reader/writer accept library and hand-coded big-endian forms.")
+more("C20", "(sixth round) prepareFile never writes through a slice that aliases its argument.")
